@@ -30,7 +30,7 @@ NOTE = (
     "the callee guard, so VmOkP = VmOk /\\ PInv is an invariant of the real machine with NO hypothesis along the run "
     "besides SizeBounded (vmOkP_reaches) and calleeOkAlong_of_vmOk discharges CalleeOkAlong. The *_closed theorems "
     "restate the *_wf / *_machine theorems WITHOUT CalleeOkAlong; remaining hypotheses: ExtLaws, ExtGood, ExtCodeLawsV "
-    "and the NEW law ExtProc (Lemmas/ProcInvOps.lean: given HP and arguments that are values not pointing to entry "
+    "and the NEW law ExtProc (Lemmas/ProcInvOps.lean: given HP, LF (the free list holds no cell a closure refers to - without this premise the law is FALSE of cons: extProc_needs_lf) and arguments that are values not pointing to entry "
     "code, the generic builtins / eval's compiler / VPUSH create no entry code, keep HP, and return a value that does not "
     "lead to entry code; a parameter like ExtGood, satisfiable: failingExt_proc), VmOk and PInv of the INITIAL state, "
     "SizeBounded (C07 also CompLaws/CompGood, and VmOk /\\ PInv of the two prepared states s2, t2 - as before for VmOk - "
@@ -43,3 +43,74 @@ NOTE = (
 
 # only for modules that import Proofs/C13.lean (C03, C05, C07, C13)
 FAILING_EXT = ["Marwood.Proofs.C13.failingExt_proc"]
+
+
+# ROUND 8 (work package wp10-ext): the law structures are THEOREMS for a table of real builtins
+LISTEXT_LAWS = [
+    "Marwood.Lemmas.Sim.listExtWith_laws",
+    "Marwood.Lemmas.Good.listExtWith_good",
+    "Marwood.Vm.Concrete.listExtWith_codeLawsG",
+    "Marwood.Vm.Concrete.listExtWith_codeLawsV",
+    "Marwood.Lemmas.MachineGarbage.listExtWith_codePlain",
+    "Marwood.Lemmas.PolicyAlloc.listExtWith_allocOnly",
+    "Marwood.Lemmas.Good.listExtWith_proc",
+    "Marwood.Lemmas.Good.ProcWitness.cons_breaks_hp",
+    "Marwood.Lemmas.Good.extProc_needs_lf",
+    "Marwood.Lemmas.Good.evalSetPair_eq_rust",
+    "Marwood.Lemmas.Good.LDemo.sDemo_vmOk",
+    "Marwood.Lemmas.Good.LDemo.sDemo_pinv",
+    "Marwood.Lemmas.Good.LDemo.sDemo_sizeBounded",
+]
+LISTEXT = {
+ "C03": [
+  "Marwood.Proofs.C03.calleeOkAlong_listExt",
+  "Marwood.Proofs.C03.gc_unobservable_listExt",
+  "Marwood.Proofs.C03.gc_unobservable_value_listExt",
+  "Marwood.Proofs.C03.run_one_preserves_vmOkP_listExt",
+  "Marwood.Proofs.C03.demo_every_schedule",
+  "Marwood.Proofs.C03.demo_forced_schedules"
+ ],
+ "C13": [
+  "Marwood.Proofs.C13.sliced_value_eq_uninterrupted_listExt",
+  "Marwood.Proofs.C13.sliced_error_eq_uninterrupted_listExt",
+  "Marwood.Proofs.C13.demo_every_slicing"
+ ],
+ "C07": [
+  "Marwood.Proofs.C07.failed_eval_equivalent_later_listExt"
+ ],
+ "C04": [
+  "Marwood.Proofs.C04.tail_loop_sp_listExt"
+ ],
+ "C05": [
+  "Marwood.Proofs.C05.invoke_run_same_result_listExt"
+ ],
+ "C18": [
+  "Marwood.Proofs.C18.stackDiscAlong_listExt",
+  "Marwood.Proofs.C18.symbols_interned_listExt",
+  "Marwood.Proofs.C18.symbol_production_interns_listExt"
+ ],
+ "C12": [
+  "Marwood.Proofs.C12.no_floating_garbage_listExt",
+  "Marwood.Proofs.C12.forced_gc_no_floating_garbage_listExt",
+  "Marwood.Proofs.C12.slice_alloc_bound_listExt"
+ ]
+}
+
+
+def listext_module(prop):
+    return ["Marwood.Proofs." + prop, "Marwood.Lemmas.ListExt" + prop]
+
+
+LISTEXT_NOTE = (
+    " ROUND 8 (the Ext laws are THEOREMS for real builtins): Vm/ListExt.lean models 17 Rust builtins over the concrete heap "
+    "as the Rust code does (car cdr cons set-car! set-cdr! null? pair? eq? not eqv? boolean? char? string? symbol? number? "
+    "vector? procedure?; payload equality of two numbers / two strings is a parameter eqTag; apply and call/cc are modelled by "
+    "Machine.lean itself); for listExtWith eqTag ALL six law structures are proved (ExtLaws, ExtGood, ExtCodeLawsG/V, "
+    "ExtCodePlain, ExtAllocOnly, ExtProc), so the *_listExt corollaries (Lemmas/ListExtCNN.lean) have NO hypothesis about the "
+    "builtins: what remains is VmOk and PInv of the INITIAL state and SizeBounded. Non-vacuity: LDemo.sDemo (hand-assembled "
+    "(define p (cons 1 2)) (set-car! p 3) (car p)) satisfies all of them; demo_every_schedule / demo_every_slicing / "
+    "demo_forced_schedules run it through the theorems. Tie: stream concrete-heap-step-listext (simstep runlx: CALL/TCALL of "
+    "a table builtin on real states, the driver computes the result with ListExt.builtinEval and the whole post-state is "
+    "compared with the real VM). Builtins outside the table still go through the law structures (failingExt_* show "
+    "satisfiability; C06/C08/C14/C15 model them one by one at the value level)."
+)
